@@ -495,8 +495,36 @@ func cmdCheck(args []string) int {
 		return 2
 	}
 	dischargeAll(dir, s.decls, vcs, filter, timeout, 10)
+	// Second chance for obligations that no solver decided: a loaded machine (other checks, other
+	// processes) makes 1-3 s proofs run into the timeout. They are re-run three at a time with three
+	// times the budget; an obligation that is genuinely unprovable stays undecided and is reported.
+	undecided := map[*Obligation]bool{}
+	for _, vc := range vcs {
+		for _, o := range vc.Obls {
+			if filter(o) && o.Result != nil && !o.Cover && o.Static == "" && o.Result.Status == "unknown" {
+				undecided[o] = true
+			}
+		}
+	}
+	if n := len(undecided); n > 0 && n <= 60 {
+		first := map[*Obligation]*SolveResult{}
+		for o := range undecided {
+			first[o] = o.Result
+		}
+		dischargeAll(dir, s.decls, vcs, func(o *Obligation) bool { return undecided[o] }, 3*timeout, 3)
+		for o, r := range first {
+			if o.Result != nil && o.Result != r {
+				o.Result.Tried = append(append([]string{}, r.Tried...), append([]string{"(second attempt, 3x budget)"}, o.Result.Tried...)...)
+				if o.Result.Status == "unsat" {
+					retried++
+				}
+			}
+		}
+	}
 	return report(s, *prop, *tier, seed, vcs, filter, t0, dir, timeout)
 }
+
+var retried int // obligations discharged only at the second attempt
 
 type knownFinding struct {
 	Prop, Obl, Text string
@@ -674,6 +702,7 @@ func report(s *Session, prop, tier string, seed int, vcs []*FuncVC, filter func(
 			"engine_errors":         engineErrs,
 			"per_solver_timeout_ms": timeout,
 			"known_findings":        knownHit,
+			"second_attempt":        retried,
 		},
 		"assumptions": assumptions,
 		"wall_s":      time.Since(t0).Seconds(),
